@@ -425,6 +425,35 @@ func runConc() {
 			emit(x.name, fmt.Sprintf("concurrent:g%d", x.g), x.res)
 		}
 	}
+	// every operation against ITSELF: four goroutines released together run the same operation on the same shared arguments
+	// (a write to a caller-supplied input, or to state keyed by it, is a write-write race here whatever the rest of the mix does)
+	sortStrings(concNames)
+	for i, n := range concNames {
+		if i > 0 && concNames[i-1] == n {
+			continue
+		}
+		const K = 4
+		res := make([][][]byte, K)
+		start := make(chan struct{})
+		var wg2 sync.WaitGroup
+		for g := 0; g < K; g++ {
+			wg2.Add(1)
+			go func(g int) {
+				defer wg2.Done()
+				<-start
+				for rep := 0; rep < 3; rep++ {
+					res[g] = append(res[g], ops[n]())
+				}
+			}(g)
+		}
+		close(start)
+		wg2.Wait()
+		for g := 0; g < K; g++ {
+			for _, x := range res[g] {
+				emit(n, fmt.Sprintf("concurrent:self%d", g), x)
+			}
+		}
+	}
 	fmt.Printf("events=%d\n", tr.Count())
 }
 
